@@ -29,6 +29,8 @@ func runC15(c *Ctx) {
 	c.Rule("C15.R3", "fallback policy switch matches the three documented policies in both builders", 6)
 	c.Rule("C15.R4", "key/value lists of sibling subsets never share a backing array (no append onto a loop-invariant slice)", 3)
 	c.Rule("C15.R5", "pointers a subset builder retains (cache keys) are freshly allocated, never shared scratch storage", 1)
+	c.Rule("C15.R10", "the pre-index builder advances the host position exactly once per visited host", 1)
+	defer c15HostOffsetsAdvance(c)
 	c.Rule("C15.R9", "a configured subset selector is dropped only as an exact duplicate of an earlier one", 1)
 	defer c15SelectorsAllKept(c)
 	c.Rule("C15.R6", "request-path code never mutates the route's shared metadata match criteria", 1)
